@@ -428,6 +428,11 @@ fn entry_classes(seg: &SignedPathSegment) -> Vec<usize> {
     cls
 }
 
+/// position of the first entry whose `AsEntry` equals that of entry `j`
+fn cls_first(seg: &SignedPathSegment, j: usize) -> usize {
+    entry_classes(seg)[j]
+}
+
 fn prefix_parts<'a>(seg: &'a SignedPathSegment, hb: &'a [u8], k: usize) -> Vec<&'a [u8]> {
     let mut parts: Vec<&[u8]> = vec![hb, seg.info().encoded.as_slice()];
     for e in &seg.as_entries[..k] {
@@ -664,7 +669,13 @@ fn check_positions(
         let offered = offered_key(var, i, &h.table, subst);
         let expected = expected_accept(set, vr, i, offered.as_ref());
         if accepted && !expected {
-            if cls[i] != i {
+            if kind == "forged-equal-entry" && cls[i] != i {
+                rep.spec_fail(
+                    "C18:forged-equal-entry-accepted",
+                    &format!("an entry signed by ANOTHER AS's key over a prefix of the segment, whose decoded AsEntry equals the entry at position {}, is accepted at position {i}: the by-value take_while stops at position {} and the key provider is only asked for the header's key id ({detail})", cls[i], cls[i]),
+                    case(),
+                );
+            } else if cls[i] != i {
                 rep.spec_fail(
                     "C18:extension-replay-accepted",
                     &format!("entry at position {i} is a copy of the entry at position {} and is accepted although the bytes preceding it are not the bytes it was signed over ({kind}: {detail})", cls[i]),
@@ -720,6 +731,29 @@ fn seg_stream_one(h: &Honest, foreign: &Honest, rng: &mut Rng, lean: &mut Lean, 
 
     // 1. the honest segment validates at every position
     check_positions("honest", "", h, &set, &h.var(), &all, None, Some(lean), rep, tally);
+
+    // 1b. the signer's side (spec, independent of `validate_signature`): every entry's signature must be one a
+    //     conforming verifier accepts – it verifies under the signer's key over `hb ‖ info ‖ (hb, sig) of ALL
+    //     preceding entries` (index form) and the header's associated_data_length is that length
+    {
+        let cls = entry_classes(&h.seg);
+        for (j, (hb, sig, ad_idx, vk)) in set.items.iter().enumerate() {
+            let Some(hdr) = decode_msg(hb).hdr else { continue };
+            let len_ok = hdr.associated_data_length as i64 == ad_idx.len() as i64;
+            let ver_ok = verify_oracle(vk, hdr.signature_algorithm, &[hb.as_slice(), ad_idx.as_slice()], sig);
+            if len_ok && ver_ok {
+                rep.hit("signer: entry signed over info + all preceding entries");
+                continue;
+            }
+            let case = json!({"position": j, "first_equal_entry_at": cls[j], "segment": seg_brief(&h.seg),
+                              "header_ad_len": hdr.associated_data_length, "index_form_len": ad_idx.len(), "rpc": hex(&h.rpc.encode_to_vec())});
+            if cls[j] != j {
+                rep.spec_fail("C18:signing-by-value:repeated-entry", &format!("the signing code signed entry {j} (equal to entry {}) over the associated data of its first occurrence only: the entries in between are not covered and a conforming verifier rejects the segment", cls[j]), case);
+            } else {
+                rep.spec_fail("C18:signer-nonconforming", &format!("entry {j} is not signed over info + all preceding entries"), case);
+            }
+        }
+    }
 
     // 2. RPC round trip of the honest segment (spec) – value equality of the real types; what `into_rpc`
     //    sends as segment info must be the bytes the entries were signed over
@@ -864,6 +898,58 @@ fn seg_stream_one(h: &Honest, foreign: &Honest, rng: &mut Rng, lean: &mut Lean, 
             if let Some(var) = conv(t) {
                 let pos: Vec<usize> = (0..=n).collect();
                 check_positions("extension-foreign", &format!("entry of another segment inserted at {p}"), &hx, &set, &var, &pos, None, Some(lean), rep, tally);
+            }
+        }
+    }
+
+    // 6b. forged entry: another AS (holding its own, resolvable key) signs a body byte-equal to the body of
+    //     entry j over the segment info alone and appends it: its decoded AsEntry equals entry j's
+    {
+        let fkey = foreign.keys[0].clone();
+        let fia = foreign.seg.as_entries[0].local.to_u64();
+        let fid = key_id_for(fia, 0);
+        let mut merged = h.table.clone();
+        merged.by_id.insert((fid.isd_as, fid.subject_key_id.clone()), *fkey.verifying_key());
+        let hx = Honest { seg: h.seg.clone(), rpc: h.rpc.clone(), set: h.set.clone(), keys: h.keys.clone(), table: merged, with_key_ids: h.with_key_ids };
+        let j = rng.below(n as u64) as usize;
+        let body = decode_msg(&h.seg.as_entries[j].signature().header_and_body).hb.and_then(|d| RpcBody::decode(d.body.as_slice()).ok());
+        if let Some(body) = body {
+            // … over what the by-value take_while will select for it: the info and the (public) entries before j
+            let info = assoc_bytes(&rpc.segment_info, &h.seg, cls_first(&h.seg, j));
+            if let Ok(sm) = SignedMessage::sign(&fkey, DigestAlgorithm::Sha256, 1, Some(fid), (info.len(), std::iter::once(info.as_slice())), &body, &()) {
+                let mut t = rpc.clone();
+                t.as_entries.push(pb::control_plane::v1::AsEntry { signed: Some(sm.into_rpc()), unsigned: None });
+                if let Some(var) = conv(t) {
+                    check_positions("forged-equal-entry", &format!("body of entry {j} re-signed by another AS over the info and the entries before it, appended"), &hx, &set, &var, &[n], None, Some(lean), rep, tally);
+                }
+            }
+        }
+    }
+
+    // 6c. ECDSA malleability: (r, s) ↦ (r, n − s) is another valid signature of the same bytes under the same
+    //     key. Not a violation of the property (the entry *is* signed by that key over exactly these bytes); only
+    //     recorded, and compared with the model
+    {
+        let i = rng.below(n as u64) as usize;
+        let sm = rpc.as_entries[i].signed.as_ref().unwrap();
+        if let Ok(sig) = Signature::from_der(&sm.signature) {
+            let (r, s_) = sig.split_scalars();
+            let neg: p256::Scalar = -*s_;
+            if let Ok(m) = Signature::from_scalars(r.to_bytes(), neg.to_bytes()) {
+                let mut t = rpc.clone();
+                t.as_entries[i].signed.as_mut().unwrap().signature = m.to_der().as_bytes().to_vec();
+                if let Some(var) = conv(t) {
+                    let v = validate_entry(&var.seg, i, &h.table, None, Some(lean), rep);
+                    tally.validations += 1;
+                    rep.traces += 1;
+                    rep.case(&format!("malleated|{}|{i}", hex(m.to_der().as_bytes())), true);
+                    if let Some(mo) = &v.model {
+                        if lean.differs(mo, &v.imp) {
+                            rep.disagree("validate_signature/malleated-signature", json!({"position": i, "segment": seg_brief(&var.seg)}), &v.imp, mo);
+                        }
+                    }
+                    rep.hit(&format!("malleated signature (r, n-s) of an authentic entry: {}", if v.imp == "ok" { "accepted (same key, same bytes)" } else { "rejected" }));
+                }
             }
         }
     }
@@ -1770,6 +1856,123 @@ fn gen_direct_path(rng: &mut Rng) -> ScionPath {
     }
 }
 
+/// a directly constructed path that satisfies every condition of `PathCanon` (Lemmas/Signed.lean) by
+/// construction: even, non-zero interface count; expiration ≤ i64::MAX; notes absent or one per AS; nothing on
+/// the last interface; link types on all even interfaces or on none; hop counts on all inner odd interfaces or
+/// on none; no zero bandwidth, no all-zero geo, no empty address
+fn gen_canonical_direct_path(rng: &mut Rng) -> ScionPath {
+    let raw = valid_raw(rng);
+    let view = StandardPathView::try_from_slice(&raw).map(|(v, _)| v.to_boxed()).expect("valid raw");
+    let n = *rng.pick(&[2usize, 2, 4, 6, 8]);
+    let even_links = rng.chance(2, 3);
+    let odd_links = rng.chance(1, 2);
+    let interfaces = (0..n)
+        .map(|i| {
+            let last = i == n - 1;
+            InterfaceMetadata {
+                interface: PathInterface::new(IsdAsn::from(IA_BASE + (i as u64 + 1) / 2), rng.next() as u16),
+                geo_info: rng.chance(1, 2).then(|| {
+                    let addr = match rng.below(2) { 0 => None, _ => Some("Bern".to_string()) };
+                    let lat = if addr.is_none() || rng.chance(1, 2) { f32::from_bits(0x3f80_0000 | (rng.next() as u32 & 0xffff)) } else { 0.0 };
+                    GeoCoordinates::new(lat, if rng.chance(1, 2) { 0.0 } else { -7.5 }, addr)
+                }),
+                latency: (!last && rng.chance(1, 2)).then(|| std::time::Duration::new(if rng.chance(1, 8) { i64::MAX as u64 } else { rng.below(1000) }, rng.below(1_000_000_000) as u32)),
+                bandwidth: (!last && rng.chance(1, 2)).then(|| 1 + (rng.next() >> rng.below(63))),
+                link: if i % 2 == 0 {
+                    even_links.then(|| LinkMeta::Egress(LinkType::from_i32(*rng.pick(&[0, 1, 2, 3, 4, 200, 255]))))
+                } else if !last && odd_links {
+                    Some(LinkMeta::Ingress { internal_hop_count: rng.next() as u32 >> rng.below(31) })
+                } else {
+                    None
+                },
+            }
+        })
+        .collect::<Vec<_>>();
+    let meta = PathMetadata {
+        expiration: if rng.chance(1, 5) { *rng.pick(&[0u64, i64::MAX as u64]) } else { rng.below(4_000_000_000) },
+        mtu: rng.next() as u16,
+        interfaces: Some(interfaces),
+        epic_auth: rng.chance(1, 3).then(|| EpicAuths::new(rng.bytes(4), rng.bytes(3))),
+        notes: rng.chance(1, 2).then(|| (0..(n / 2 + 1)).map(|i| if i == 1 { String::new() } else { format!("n{i}") }).collect()),
+    };
+    let next_hop = rng.chance(1, 2).then(|| rng.pick(&["10.1.2.3:4", "[2001:db8::1]:443"]).parse().unwrap());
+    ScionPath::new(IsdAsn::from(IA_BASE), IsdAsn::from(IA_BASE + 5), view.into(), Some(meta), next_hop)
+}
+
+/// Why a directly constructed standard path is outside the set `to_rpc → try_from_rpc` reproduces, as the
+/// specific class of the open finding (independent re-statement of `PathCanon`); `None` = canonical: must survive
+fn direct_class(p: &ScionPath) -> Option<&'static str> {
+    let Some(m) = p.metadata() else { return Some("C18:path-roundtrip:direct:no-interface-metadata") };
+    let Some(ifs) = m.interfaces.as_ref() else { return Some("C18:path-roundtrip:direct:no-interface-metadata") };
+    let n = ifs.len();
+    if n == 0 || n % 2 != 0 {
+        return Some("C18:path-roundtrip:direct:no-interface-metadata");
+    }
+    if m.expiration > i64::MAX as u64 {
+        return Some("C18:path-roundtrip:expiration-above-i64");
+    }
+    if has_unknown_alias(p) {
+        return Some("C18:path-roundtrip:linktype-unknown-alias");
+    }
+    let shape = "C18:path-roundtrip:direct:metadata-shape";
+    if m.notes.as_ref().map(|l| l.len() != n / 2 + 1).unwrap_or(false) {
+        return Some(shape);
+    }
+    let last = &ifs[n - 1];
+    if last.latency.is_some() || last.bandwidth.is_some() || last.link.is_some() {
+        return Some(shape);
+    }
+    let evens: Vec<&InterfaceMetadata> = ifs.iter().step_by(2).collect();
+    let all_egress = evens.iter().all(|x| matches!(x.link, Some(LinkMeta::Egress(_))));
+    if !(all_egress || evens.iter().all(|x| x.link.is_none())) {
+        return Some(shape);
+    }
+    let inner_odds: Vec<&InterfaceMetadata> = ifs.iter().skip(1).step_by(2).take(n / 2 - 1).collect();
+    let all_ingress = inner_odds.iter().all(|x| matches!(x.link, Some(LinkMeta::Ingress { .. })));
+    if !(all_ingress || inner_odds.iter().all(|x| x.link.is_none())) {
+        return Some(shape);
+    }
+    let zero = "C18:path-roundtrip:direct:zero-values";
+    for x in ifs {
+        if x.bandwidth == Some(0) || x.latency.map(|d| d.as_secs() > i64::MAX as u64).unwrap_or(false) {
+            return Some(zero);
+        }
+        if let Some(g) = &x.geo_info {
+            let empty_addr = g.address.as_ref().map(|a| a.is_empty()).unwrap_or(true);
+            if g.address.as_deref() == Some("") || (g.latitude == 0.0 && g.longitude == 0.0 && empty_addr) {
+                return Some(zero);
+            }
+        }
+    }
+    None
+}
+
+/// spec for directly constructed paths: `try_from_rpc(to_rpc(p), src, dst)` gives `p` back
+fn check_direct_roundtrip(what: &str, p: &ScionPath, back: RpcPath, rep: &mut Report) {
+    let cp = canon_path(p);
+    let cut = |s: &str| if s.len() > 400 { format!("{}…", &s[..400]) } else { s.to_string() };
+    let class = direct_class(p);
+    rep.case(&format!("direct|{cp}"), class.is_none());
+    let res = catch(|| ScionPath::try_from_rpc(back, p.src_ia(), p.dst_ia()));
+    let lost = match &res {
+        Err(_) => {
+            rep.spec_fail("C18:panic:path-rpc", "try_from_rpc panicked on to_rpc output of a directly built path", json!({"what": what, "path": cut(&cp)}));
+            return;
+        }
+        Ok(Err(e)) => Some(format!("try_from_rpc(to_rpc(p)) failed: {e}")),
+        Ok(Ok(p2)) => {
+            let c2 = canon_path(p2);
+            (c2 != cp).then(|| format!("try_from_rpc(to_rpc(p)) != p: got {}", cut(&c2)))
+        }
+    };
+    match (lost, class) {
+        (None, None) => rep.hit("direct path (canonical): roundtrip ok"),
+        (None, Some(c)) => rep.hit(&format!("direct path in class {}: survives anyway", c.rsplit(':').next().unwrap())),
+        (Some(w), None) => rep.spec_fail("C18:path-roundtrip", &format!("a directly built canonical path does not survive: {w}"), json!({"what": what, "path": cut(&cp)})),
+        (Some(w), Some(c)) => rep.spec_fail(c, &format!("a directly built path does not survive to_rpc → try_from_rpc: {w}"), json!({"what": what, "path": cut(&cp)})),
+    }
+}
+
 
 /// `Segments` / `SegmentsPage` (grouping by segment type; not modelled): round trip and arbitrary type keys
 fn check_segments_page(rng: &mut Rng, pool: &[SignedPathSegment], rep: &mut Report) {
@@ -1840,6 +2043,25 @@ fn probe_findings(rng: &mut Rng, lean: &mut Lean, rep: &mut Report, tally: &mut 
     let mut p2 = base.clone();
     p2.expiration = Some(prost_types::Timestamp { seconds: -5, nanos: 0 });
     check_pathrpc("probe negative expiration", &p2, src, dst, lean, rep);
+    // (e) directly constructed paths outside the canonical set, one per class
+    let mk = |meta: Option<PathMetadata>| {
+        let raw = [0u8, 0, 0x20, 0, 0, 0, 0, 7, 0, 0, 3, 0xe8, 0, 63, 0, 0, 0, 1, 1, 2, 3, 4, 5, 6, 0, 63, 0, 2, 0, 0, 1, 2, 3, 4, 5, 6];
+        let view = StandardPathView::try_from_slice(&raw).map(|(v, _)| v.to_boxed()).expect("probe raw path");
+        ScionPath::new(src, dst, view.into(), meta, None)
+    };
+    let ifm = |ia: u64, id: u16| InterfaceMetadata { interface: PathInterface::new(IsdAsn::from(ia), id), geo_info: None, latency: None, bandwidth: None, link: None };
+    let meta = |a: InterfaceMetadata, b: InterfaceMetadata| PathMetadata { expiration: 1000, mtu: 1400, interfaces: Some(vec![a, b]), epic_auth: None, notes: None };
+    let probes = [
+        ("probe: ScionPath::new(.., None, None) with a standard data-plane path", mk(None)),
+        ("probe: latency on the last interface", mk(Some(meta(ifm(IA_BASE, 1), InterfaceMetadata { latency: Some(std::time::Duration::from_millis(5)), ..ifm(IA_BASE + 1, 2) })))),
+        ("probe: bandwidth Some(0)", mk(Some(meta(InterfaceMetadata { bandwidth: Some(0), ..ifm(IA_BASE, 1) }, ifm(IA_BASE + 1, 2))))),
+        ("probe: canonical two-interface path", mk(Some(meta(InterfaceMetadata { bandwidth: Some(5), latency: Some(std::time::Duration::from_millis(5)), link: Some(LinkMeta::Egress(LinkType::Direct)), ..ifm(IA_BASE, 1) }, ifm(IA_BASE + 1, 2))))),
+    ];
+    for (what, p) in probes {
+        if let Some(back) = check_to_rpc(what, &p, lean, rep) {
+            check_direct_roundtrip(what, &p, back, rep);
+        }
+    }
 }
 
 // ------------------------------------------------------------------------------------------------
@@ -2061,9 +2283,11 @@ fn main() {
         }
     }
     check_pathrpc("empty message", &RpcPath::default(), IsdAsn::from(IA_BASE), IsdAsn::from(IA_BASE), &mut lean, &mut rep);
-    for _ in 0..args.scale(600, 10000) {
-        let p = gen_direct_path(&mut rng);
-        check_to_rpc("direct", &p, &mut lean, &mut rep);
+    for i in 0..args.scale(900, 15000) {
+        let (what, p) = if i % 3 == 0 { ("direct canonical", gen_canonical_direct_path(&mut rng)) } else { ("direct", gen_direct_path(&mut rng)) };
+        if let Some(back) = check_to_rpc(what, &p, &mut lean, &mut rep) {
+            check_direct_roundtrip(what, &p, back, &mut rep);
+        }
     }
     rep.notes.push(format!("all streams done at {:.1}s; driver requests {}", t0.elapsed().as_secs_f32(), lean.requests));
     rep.write(&args.out);
